@@ -285,7 +285,7 @@ type c16Driver struct {
 	complaints []c16Complaint
 	everHeld   map[int32]bool
 	max        int
-	panics     int // continuations that panicked (contained by the harness, as the turn's caller)
+	panics     int   // continuations that panicked (contained by the harness, as the turn's caller)
 	unresolved []int // steps whose OReply named a request that did not exist (yet): sent with an unrelated id
 }
 
@@ -485,6 +485,7 @@ func c16OffTurn(f func()) {
 	done := make(chan struct{})
 	go func() {
 		defer close(done)
+		defer func() { _ = recover() }() // a continuation that runs (and panics) here is reported by the oracle, not by a crash
 		f()
 	}()
 	<-done
@@ -771,9 +772,10 @@ func TestVerifC16Ops(t *testing.T) {
 		}
 		for d.pid.mailbox.Dequeue() != nil {
 		}
+		d.pid.reentrancy.Load().reset() // nothing left for the retiring Shutdown to cancel (continuations of this case may panic)
 		d.pid.setState(stoppingState, false)
 		d.pid.schedState.reset()
-		_ = d.pid.Shutdown(ctx)
+		d.guarded(func() { _ = d.pid.Shutdown(ctx) })
 	}
 }
 
@@ -783,7 +785,7 @@ func TestVerifC16Ops(t *testing.T) {
 
 type c16StressOut struct {
 	Requesters, Messages, Requests, Replies, Timeouts, Cancels, ShutdownCancelled, Rejected, Continuations int64
-	Violations                                                                                       []string
+	Violations                                                                                             []string
 }
 
 type c16Viol struct {
@@ -800,11 +802,12 @@ func (x *c16Viol) add(format string, a ...any) {
 }
 
 type c16SReq struct {
-	call      RequestCall
-	state     *requestState
-	calls     atomic.Int32
-	thenSet   atomic.Bool
-	stashMode bool
+	call       RequestCall
+	state      *requestState
+	calls      atomic.Int32
+	thenSet    atomic.Bool
+	stashMode  bool
+	beforeStop bool // Request had returned before Shutdown was called: the shutdown cancellation must find it
 }
 
 type c16SActor struct {
@@ -931,7 +934,7 @@ func (a *c16SActor) receive(rc *ReceiveContext) {
 			continue
 		}
 		atomic.AddInt64(&a.stats.Requests, 1)
-		r := &c16SReq{call: call, state: call.(*requestHandle).state, stashMode: stash}
+		r := &c16SReq{call: call, state: call.(*requestHandle).state, stashMode: stash, beforeStop: !a.stopping.Load()}
 		a.mu.Lock()
 		a.reqs = append(a.reqs, r)
 		a.mu.Unlock()
@@ -1141,7 +1144,7 @@ func c16StressRound(t *testing.T, seed uint64, nReq, nMsg, round int) c16StressO
 			r.state.mu.Lock()
 			c, e := r.state.completed, r.state.err
 			r.state.mu.Unlock()
-			if !c {
+			if !c && r.beforeStop {
 				viol.add("%s: request #%d was never completed by Shutdown", a.name, k)
 				break
 			}
